@@ -1101,7 +1101,11 @@ AUDITED = [
      'why': 'bytes_slice.split_at_mut(old_len * size): the same view as bytes_slice[old_len * size..] below, same argument'},
     {'fn': 'helper:bulk::{closure#0}', 'kind': 'call index_mut', 'max': 1,
      'why': 'bytes_slice[old_len * size..]: bytes_slice is the byte view of the vector after set_len(old_len + chunk_len), i.e. (old_len + chunk_len) * size bytes long'},
+    {'fn': 'helper:chunk', 'kind': 'Overflow Sub', 'max': 1, 'requires': 'callback-reports-chunk',
+     'why': 'remaining -= <what the chunk callback reports>: every callback the crate passes reports exactly the chunk length it was '
+            'given, which is min(allowance, remaining) <= remaining (C02 K1-K2, re-evaluated as the side condition)'},
 ]
+_CUR_FACTS = [None]
 
 
 def _base_fn(key):
@@ -1131,12 +1135,26 @@ def _audit_requires(req, site):
                 if cx.body.reads_stable(set(pts) | set(site.pts), site.bi, False, ignore_calls=('on_before_alloc_mem',)):
                     return True
         return False
+    if req == 'callback-reports-chunk':
+        # the subtrahend is the result of calling the callback parameter, and K1-K2 hold (incl. "every callback reports the
+        # chunk it was given", decided on the callers with their closures inlined)
+        if not (len(site.exprs) > 1 and 'call_mut' in mirx.show(site.exprs[1])):
+            return False
+        facts = _CUR_FACTS[0]
+        if facts is None:
+            return False
+        from ..report import Out
+        from . import c02
+        sub = Out('C02')
+        c02.check_kernel(sub, facts)
+        return sub.by_rule.get('K1-K2', [0, 0])[0] > 0 and not [f for f in sub.findings if f.rule in ('K1', 'K1-K2')]
     return False
 
 
 def check_panics(out, facts, repo_root, label=None, delegated=True, floor=None, only_fns=None):
     """R03.3 over one fact set.  Returns (sites, discharged-by-rule counter)."""
     cfg = label or facts.cfg
+    _CUR_FACTS[0] = facts
     seen = reachable(facts)
     by_rule = {}
     n = 0
